@@ -580,6 +580,12 @@ func c08() {
 			kc.cc.OuterPolicy = &outer
 			run.Count("children_whose_load_runs_under_an_earlier_filter_of_the_same_thread", 1)
 		}
+		if i%10 == 3 && goarch == "amd64" {
+			// an environment: the process runs in the PER_LINUX32 execution domain (linux32, setarch i686, 32-bit chroots):
+			// uname(2) reports i686, the system calls are still those of the x86_64 ABI
+			kc.cc.Linux32 = true
+			run.Count("children_in_the_linux32_execution_domain", 1)
+		}
 		if i%6 == 4 && !kc.cc.KillThreadProbe {
 			kc.cc.PauseBetweenProbes = true
 			run.Count("children_pausing_between_probes", 1)
